@@ -9,7 +9,8 @@ from ..core import expect_return, run_async, run_sync, trace_view, first_diff
 PROPERTY = "C05"
 LEVEL = "exploration"
 RULE = (
-    "C01 cases (every iterator tool, plus the short-circuiting all/any) with class-based logging "
+    "C01 cases (every iterator tool, plus the short-circuiting all/any, plus compositions of 2-3 tools in the "
+    "pipelines-* shards) with class-based logging "
     "sources and logging callables; the consumer advances a generated number of steps (0..exhaustion, "
     "finite prefix for cycle; any child order for tee). Oracle: the full interleaved event log "
     "(pull / item / end-of-source / call with argument identities / yield / stop / raise) of the "
@@ -81,8 +82,25 @@ def extra(results):
     return {}
 
 
+def check_pipeline(case):
+    from ..pipelines import run_both
+
+    case = dict(case, fl="aclass", mode="hooks", csusp=False)
+    outcome, events_s, src, ctx_a, ctx_s, released, close_errors = run_both(case)
+    expect_return(outcome, "C05/pipeline")
+    at, stt = trace_view(ctx_a.log), trace_view(ctx_s.log)
+    d = first_diff(at, stt)
+    if d is not None:
+        i, x, y = d
+        raise Violation("C05/pipeline/pull-order", f"stages={case['stages']} take={case['take']} event {i}: "
+                        f"async={x} stdlib={y}")
+
+
 def shards(tier):
-    return [
+    from ..pipelines import pipelines
+
+    return [Shard(f"pipelines-{i}", check_pipeline, strategy=pipelines(3 if tier == "quick" else 4), n=1000,
+                  nontrivial=lambda c: len(c["items"]) >= 2, thorough_mult=15) for i in range(4)] + [
         Shard(name, check, strategy=cases(name, 8 if tier == "quick" else 12), n=600,
               nontrivial=nontrivial if name not in ("all", "any") else (lambda c: features(c)["max_len"] >= 2),
               classify=classify, thorough_mult=25)
